@@ -176,6 +176,28 @@ def run(ctx, rep):
     else:
         rep.violated("C05/P1/kinds", "each declared line becomes exactly one component of its kind", construct=loc_of(pb),
                      why="kinds appended: %s; built from the line only: %s" % (sorted(variants), payload_ok))
+    # nothing that was appended is taken away again before normalisation: the list handed over is built from the
+    # empty list by appends only (no retain / filter / truncate / dedup / replacement on the way)
+    bad_ops = []
+
+    def spine(t):
+        if t.op in ("extend", "push"):
+            spine(t.a[0])
+        elif t.op == "ite":
+            spine(t.a[1])
+            spine(t.a[2])
+        elif t.op == "seq" and not t.a:
+            pass
+        elif t is tm.GARBAGE:
+            pass
+        else:
+            bad_ops.append(t.op)
+    spine(cdata)
+    if not bad_ops:
+        rep.discharged("C05/P1/keeps", "every component read from a line reaches normalisation (the list is built by appends only)")
+    else:
+        rep.violated("C05/P1/keeps", "no component read from a declared line is dropped or replaced before normalisation",
+                     construct=loc_of(pb), why="the component list passes through: %s" % sorted(set(bad_ops)))
     lits = set()
     for f in line_filters:
         for t in tm.subterms(f):
